@@ -407,6 +407,8 @@ def nic_v1(msg: str, NICs: int) -> tuple[int, None | float, None | float]:
             % msg
         )
 
+    NICs = int(NICs)  # the supplement is documented as int or string
+
     NIC = uncertainty.TC_NICv1_lookup[tc]
 
     if isinstance(NIC, dict):
@@ -450,7 +452,8 @@ def nic_v2(msg: str, NICa: int, NICbc: int) -> tuple[int | None, int | None]:
     if 20 <= tc <= 22:
         NICs = 0
     else:
-        NICs = NICa * 2 + NICbc
+        # the supplements are documented as int or string
+        NICs = int(NICa) * 2 + int(NICbc)
 
     try:
         if isinstance(NIC, dict):
